@@ -255,7 +255,7 @@ func PrepareForPackager(
 		switch content.Type {
 		case TypeDir:
 			// implicit directories at the same destination can just be overwritten
-			presentContent, destinationOccupied := contentMap[NormalizeAbsoluteDirPath(content.Destination)]
+			presentContent, destinationOccupied := occupant(contentMap, NormalizeAbsoluteDirPath(content.Destination))
 			if destinationOccupied && presentContent.Type != TypeImplicitDir {
 				return nil, contentCollisionError(content, presentContent)
 			}
@@ -274,7 +274,7 @@ func PrepareForPackager(
 			// have been expanded so we can just ignore it, it will be created
 			// by another content element again anyway
 		case TypeRPMGhost, TypeSymlink, TypeRPMDoc, TypeRPMLicence, TypeRPMLicense, TypeRPMReadme, TypeDebChangelog:
-			presentContent, destinationOccupied := contentMap[NormalizeAbsoluteFilePath(content.Destination)]
+			presentContent, destinationOccupied := occupant(contentMap, NormalizeAbsoluteFilePath(content.Destination))
 			if destinationOccupied {
 				return nil, contentCollisionError(content, presentContent)
 			}
@@ -350,7 +350,7 @@ func addParents(contentMap map[string]*Content, path string, mtime time.Time) er
 		parent = NormalizeAbsoluteDirPath(parent)
 		// check for content collision and just overwrite previously created
 		// implicit directories
-		c, ok := contentMap[parent]
+		c, ok := occupant(contentMap, parent)
 		if ok {
 			// either we already created this directory as an explicit directory
 			// or as an implicit directory of another file
@@ -377,6 +377,24 @@ func addParents(contentMap map[string]*Content, path string, mtime time.Time) er
 	}
 
 	return nil
+}
+
+// occupant returns the content that already occupies the location denoted by
+// key, no matter whether it was registered as a directory (key with a trailing
+// slash) or as a file, symlink etc. (key without a trailing slash).
+func occupant(all map[string]*Content, key string) (*Content, bool) {
+	if c, ok := all[key]; ok {
+		return c, true
+	}
+	if key == "/" {
+		return nil, false
+	}
+	if strings.HasSuffix(key, "/") {
+		c, ok := all[strings.TrimSuffix(key, "/")]
+		return c, ok
+	}
+	c, ok := all[key+"/"]
+	return c, ok
 }
 
 func sortedParents(dst string) []string {
@@ -408,7 +426,7 @@ func addGlobbedFiles(
 ) error {
 	for src, dst := range globbed {
 		dst = NormalizeAbsoluteFilePath(dst)
-		presentContent, destinationOccupied := all[dst]
+		presentContent, destinationOccupied := occupant(all, dst)
 		if destinationOccupied {
 			c := *origFile
 			c.Destination = dst
@@ -452,7 +470,7 @@ func addTree(
 	mtime time.Time,
 ) error {
 	if tree.Destination != "/" && tree.Destination != "" {
-		presentContent, destinationOccupied := all[NormalizeAbsoluteDirPath(tree.Destination)]
+		presentContent, destinationOccupied := occupant(all, NormalizeAbsoluteDirPath(tree.Destination))
 		if destinationOccupied && presentContent.Type != TypeImplicitDir {
 			return contentCollisionError(tree, presentContent)
 		}
